@@ -685,6 +685,10 @@ def hsla_to_rgb(hsla_color, background=None):
                     if float(parts[3]) <= 1.0
                     else float(parts[3]) / 100.0
                 )
+                # An alpha written as a percentage ("1%", "0.5%") is a percentage
+                # whatever its size; the '%' was stripped from `parts` above.
+                if content.rstrip().endswith("%"):
+                    a = float(parts[3]) / 100.0
             else:
                 raise ValueError("Invalid HSLA CSS string format")
         else:
